@@ -221,7 +221,7 @@ def sym_tagged_job(prog: str, variant: str, seed: int = 0) -> JobOut:
     from pv.drive import FnOb
     from pv.sem.alg import TermAlg
     from pv.sem.knlsem import KernelModel
-    P = {p.name: p for p in C.SYM_CORPUS}[prog]
+    P = {p.name: p for p in C.ALL_SYM}[prog]
     try:
         outs, ins, S = C.build_sym_pytato(P)
         dag0 = pt.transform.deduplicate(pt.make_dict_of_named_arrays(outs))
@@ -285,7 +285,7 @@ def jobs(tier: str, seed: int):
                 continue
             J.append(Job(MOD, "tagged_job", {"prog": P.name, "variant": v, "seed": seed}, jid=f"{P.name}/{v}",
                          hard_timeout=1200))
-    symprogs = C.SYM_CORPUS if th else [p for p in C.SYM_CORPUS if p.name in ("sym_elementwise", "sym_reduce_static", "sym_einsum",
+    symprogs = C.sym_corpus("thorough") if th else C.SYM_GENERATED[:4] + [p for p in C.SYM_CORPUS if p.name in ("sym_elementwise", "sym_reduce_static", "sym_einsum",
                                                                             "sym_roll", "sym_stack")]
     for P in symprogs:
         for v in SYM_VARIANTS:
